@@ -28,6 +28,7 @@ type exec_ struct {
 	sc        *scenario
 	srv       *server
 	listeners map[string]*listener
+	seen      map[string]any // the JSON reply of every named http step (for @JSON:<step>:<field>@)
 }
 
 const aliveDelay = 30 * time.Millisecond
@@ -37,7 +38,8 @@ const aliveDelay = 30 * time.Millisecond
 // ---------------------------------------------------------------------------------------
 
 var (
-	nowMacro = regexp.MustCompile(`@NOW(?:([+-])([0-9]+))?@`)
+	nowMacro  = regexp.MustCompile(`@NOW(?:([+-])([0-9]+))?@`)
+	jsonMacro = regexp.MustCompile(`@JSON:([A-Za-z0-9_-]+):([A-Za-z0-9_]+)@`)
 	longText = strings.Repeat("a", 10000)
 )
 
@@ -60,6 +62,15 @@ func (x *exec_) expand(s string, now int64) string {
 			}
 		}
 		return strconv.FormatInt(t, 10)
+	})
+	s = jsonMacro.ReplaceAllStringFunc(s, func(m string) string {
+		g := jsonMacro.FindStringSubmatch(m)
+		if doc, ok := x.seen[g[1]].(map[string]any); ok {
+			if v, ok := doc[g[2]].(string); ok {
+				return url.QueryEscape(v)
+			}
+		}
+		return "missing"
 	})
 	s = strings.ReplaceAll(s, "@LONG@", longText)
 	s = strings.ReplaceAll(s, "@SID@", x.sc.Sid)
@@ -264,6 +275,12 @@ func (x *exec_) httpOnce(o *stepObs, st *step, now int64) {
 	o.Class = httpClass(true, res.StatusCode)
 	o.Body = truncate(data, 4000)
 	o.JSON = normaliseDoc(data)
+	if st.Name != "" {
+		if x.seen == nil {
+			x.seen = map[string]any{}
+		}
+		x.seen[st.Name] = o.JSON
+	}
 }
 
 // ---------------------------------------------------------------------------------------
